@@ -130,7 +130,8 @@ def split_with_escape(
 # ******************************************************************************
 def unescape(in_elem: typing.Union[str, list, dict, typing.Any]) -> typing.Union[str, list, dict, typing.Any]:
     if isinstance(in_elem, str):
-        return in_elem.encode().decode('unicode_escape')
+        # 'unicode_escape' reads bytes as Latin-1: hand it Latin-1 bytes, other characters as \uXXXX escapes
+        return in_elem.encode('latin-1', 'backslashreplace').decode('unicode_escape')
     out_elem = in_elem.copy() # because of not possible to predict the complex types
     if isinstance(out_elem, list):
         for i, value in enumerate(out_elem):
@@ -747,7 +748,8 @@ def serialize_dict(
         dangerous_characters = "{}[]\"\\" + delimiter + equal_tag
         for ch in in_buffer_str:
             if ch in dangerous_characters:
-                buffer_str += f"\\x{ord(ch):02x}"
+                code = ord(ch)
+                buffer_str += f"\\x{code:02x}" if code < 0x100 else f"\\u{code:04x}" if code < 0x10000 else f"\\U{code:08x}"
             else:
                 buffer_str += ch
 
